@@ -1,3 +1,4 @@
+import TinysetModel.Proofs.InsertSrc
 import TinysetModel.Proofs.RemoveSrc
 import TinysetModel.Proofs.ContainsSrc
 import TinysetModel.Proofs.Loops
@@ -333,6 +334,21 @@ theorem source_contains_is_membership_u64 {r : Rp} (wf : WF cfg64 r) (e : Nat) (
     srcContains64 r e = true ↔ e ∈ elems cfg64 r := by
   rw [source_contains_is_model_u64 wf e he]
   exact contains_refines cfg64_ok wf e he
+
+/-! ### the in-place paths of `insert` are those of the current source -/
+
+/-- the `Dense` and `Heap` arms of `SetU64::insert`, translated from the source on every run up to the points where the
+set has to grow or change layout: whenever the translated arm returns — the bit was set in the bitmap; the key was
+found, an empty bucket was taken, or `p_insert` made room — `insert` of the model returns the same answer, member count
+and slice, for every `u64` element, table, generator and recursion fuel -/
+theorem insert_in_place_is_the_source_u64 {D : Type} (g : Rng D) (fuel e sz cap : Nat) (a : Tbl) (he : e < 2 ^ 64) (d : D)
+    (res : (Bool × Nat) × Array Nat) :
+    (cap = a.size → Gen.insert_dense_64 e sz a = .ok res →
+      insert cfg64 g (fuel + 1) (.heap sz cap 64 a) e d = armOut cap 64 d (.ok res)) ∧
+    (∀ bits, 0 < bits ∧ bits < 64 → Gen.insert_heap_64 e sz bits a = .ok res →
+      insert cfg64 g (fuel + 1) (.heap sz cap bits a) e d = armOut cap bits d (.ok res)) :=
+  ⟨fun hc h => insert_dense_is_the_source_u64 g fuel e sz cap a hc d h,
+   fun bits hb h => insert_heap_is_the_source_u64 g fuel e sz cap bits a he hb d h⟩
 
 end C01
 
